@@ -26,6 +26,7 @@ from . import absstr
 from .facts import AnchorLost
 
 PATTERNS = [('A',), ('A', 'B'), ('A', 'B', 'A'), ('A', 'A')]
+FIELD_NAMES = ['value', 'type', 'third']
 
 
 def reference(line, pattern):
@@ -43,7 +44,7 @@ def reference(line, pattern):
                 continue
             if tok['state'] != 'typeless':
                 if matches(tok, pattern[ri]):
-                    fields['f%d' % ri] = tok['id']
+                    fields[FIELD_NAMES[ri]] = tok['id']
                     ri += 1
                 else:
                     ri, start = 0, ti + 1
@@ -67,13 +68,17 @@ def matcher_table(ctx, rid, deep=False):
     ok2 = _matcher_table(ctx, rid, False, 'API')
     for pth, blocks in getattr(ctx, '_matcher_visited', {}).items():
         vis.setdefault(pth, set()).update(blocks)
+    cells += getattr(ctx, '_matcher_cells', 0)
+    ok3 = _matcher_table(ctx, rid, False, 'Unit')
+    for pth, blocks in getattr(ctx, '_matcher_visited', {}).items():
+        vis.setdefault(pth, set()).update(blocks)
     ctx._matcher_visited = vis
     ctx._matcher_cells = cells + getattr(ctx, '_matcher_cells', 0)
-    return bool(ok1) and bool(ok2)
+    return bool(ok1) and bool(ok2) and bool(ok3)
 
 
 def _matcher_table(ctx, rid, deep=False, arm='Internal'):
-    b = ctx.facts.one(r'^tokinizer::rule_tokinizer::rule_tokinizer$')
+    b = ctx.facts.one(r'^tokinizer::rule_tokinizer::rule_tokinizer$' if arm != 'Unit' else r'^tokinizer::dynamic_type_tokinizer::dynamic_type_tokinizer$')
     ctx.fn(b)
     fm = ctx.facts.find(r'^tokinizer::rule_tokinizer::find_match$')
     if fm:
@@ -107,6 +112,7 @@ def _matcher_table(ctx, rid, deep=False, arm='Internal'):
                 for k_, vn in KIND_VARIANT.items():
                     if inner.get('__variant__') == vn:
                         return k_
+                return 'N'                      # any other kind of result (a unit quantity): matches no pattern token here
             return None
 
         def model(m, path, args, t):
@@ -124,6 +130,19 @@ def _matcher_table(ctx, rid, deep=False, arm='Internal'):
                 made[0] += 1
                 new = tok(m, 'NEW%d' % made[0], 'N', 'active')
                 return m.make_adt('core::result::Result::Ok', [m.deref_value(new['token_type'])['0']], [])
+            if re.search(r'tools::get_number$', path) and len(args) == 2:
+                # the unit reader takes the amount from the token bound to "value"
+                fmap = nm = None
+                for a in args:
+                    v = m.deref_value(a)
+                    if isinstance(v, tuple) and v and v[0] == 'map':
+                        fmap = v
+                    elif isinstance(v, str):
+                        nm = v
+                if fmap is None or nm is None:
+                    raise Unknown('get_number(%r, %r)' % (nm, fmap))
+                calls.append({nm: (m.deref_value(fmap[1][nm]) or {}).get('__id__') if nm in fmap[1] else None})
+                return absstr.some(m, 1.5)
             if re.search(r'RuleTrait::name$', path):
                 return ('str', list('rule'))
             if re.search(r'RuleTrait::call$', path):
@@ -181,19 +200,22 @@ def _matcher_table(ctx, rid, deep=False, arm='Internal'):
                     'status': m.make_adt('tokinizer::TokenInfoStatus::%s' % ('Removed' if state == 'removed' else 'Active'), [], [])}
 
         m = Machine(b, model, max_steps=60000)
-        m.enter = lambda path: path.startswith('tokinizer::rule_tokinizer::') and 'rules::' not in path
+        m.enter = lambda path: (path.startswith('tokinizer::rule_tokinizer::') and 'rules::' not in path) or path.startswith('tokinizer::dynamic_type_tokinizer::')
         line_toks = []
         for i, (k, s) in enumerate(line):
             t_ = tok(m, 't%d' % i, k, s)
             t_['start'], t_['end'] = 10 * i, 10 * i + 5
             line_toks.append(m.alloc(t_))
-        pat_toks = [m.alloc(tok(m, 'p%d' % i, 'p' + k, 'active', field='f%d' % i)) for i, k in enumerate(pattern)]
+        pat_toks = [m.alloc(tok(m, 'p%d' % i, 'p' + k, 'active', field=FIELD_NAMES[i])) for i, k in enumerate(pattern)]
         if arm == 'Internal':
             rule = m.make_adt('tokinizer::rule_tokinizer::RuleType::Internal', [('str', list('rule')), ('sym', 'fn:<the rule function>'), ('vec', [('vec', pat_toks)])], ['function_name', 'function', 'tokens_list'])
         else:
             rule = m.make_adt('tokinizer::rule_tokinizer::RuleType::API', [('vec', [('vec', pat_toks)]), {'__adt__': 'dyn smartcalc::RuleTrait', '__open__': True}], ['tokens_list', 'rule'])
         m.env['rules'] = ('vec', [rule])
         cfg = {'__adt__': 'config::SmartCalcConfig', '__variant__': 'SmartCalcConfig', '__open__': True, 'rule': {'__rules__': True, '__adt__': 'BTreeMap'}}
+        if arm == 'Unit':
+            dt = m.alloc({'__adt__': 'config::DynamicType', '__variant__': 'DynamicType', '__open__': True, 'parse': ('vec', [('vec', pat_toks)])})
+            cfg['types'] = ('map', {'family': ('map', {'1': dt})})
         m.env['cfg'] = cfg
         tk = {'__adt__': 'tokinizer::Tokinizer', '__variant__': 'Tokinizer', '__open__': True, 'config': ('ptr', 'cfg', ()), 'language': ('str', list('en')),
               'token_infos': ('vec', line_toks), 'ui_tokens': {'__adt__': 'token::ui_token::UiTokenCollection', '__open__': True}}
@@ -312,6 +334,8 @@ def _matcher_table(ctx, rid, deep=False, arm='Internal'):
         for line in lines:
             n_cells += 1
             want = reference(line, pattern)
+            if arm == 'Unit':
+                want = ([{'value': c.get('value')} for c in want[0]], want[1])
             try:
                 got = walk(line, pattern)
             except Unknown as ex:
@@ -328,10 +352,10 @@ def _matcher_table(ctx, rid, deep=False, arm='Internal'):
         line, pattern, got, want = rows[0]
         ltxt = ' '.join('%s%d' % (k if s == 'active' else '%s(%s)' % (k, s), i) for i, (k, s) in enumerate(line))
         if cls == 'replacement':
-            ctx.finding(rid, 'rule_tokinizer/matcher/replacement' + ('' if arm == 'Internal' else '/user-rule'), 'line [%s] (A number, B word, V variable holding a number), pattern [%s]: after the rule ran the token list is %s; expected %s - %d of %d cells differ' % (
+            ctx.finding(rid, 'rule_tokinizer/matcher/replacement' + {'Internal': '', 'API': '/user-rule', 'Unit': '/unit-literal'}[arm], 'line [%s] (A number, B word, V variable holding a number), pattern [%s]: after the rule ran the token list is %s; expected %s - %d of %d cells differ' % (
                 ltxt, ' '.join(pattern), got[1], want[1], len(rows), n_cells), site=b.loc)
         else:
-            ctx.finding(rid, 'rule_tokinizer/matcher/%s%s' % (cls, '' if arm == 'Internal' else '/user-rule'), 'line [%s] (A number, B word, V variable holding a number), pattern [%s] with fields f0..: the rule function is called with %s; expected %s (each field bound to the token that matched it in the completed attempt, the scan going on behind a token that ended an attempt) - %d of %d cells differ' % (
+            ctx.finding(rid, 'rule_tokinizer/matcher/%s%s' % (cls, {'Internal': '', 'API': '/user-rule', 'Unit': '/unit-literal'}[arm]), 'line [%s] (A number, B word, V variable holding a number), pattern [%s] with fields f0..: the rule function is called with %s; expected %s (each field bound to the token that matched it in the completed attempt, the scan going on behind a token that ended an attempt) - %d of %d cells differ' % (
                 ltxt, ' '.join(pattern), got[0] or 'not at all', want[0] or 'not at all', len(rows), n_cells), site=b.loc)
     if not bad:
         ctx.ok(rid, 'rule_tokinizer / find_match (%s rule): calls of the rule function, field bindings and replacement agree with the reference scan on %d (line, pattern) cells' % (arm, n_cells), 'absint', site=b.loc)
